@@ -7,6 +7,10 @@ import (
 
 // Add length prefix to message
 func AddRequestFormat(p []byte) ([]byte, error) {
+	if len(p) > 0xff {
+		// the one byte length prefix cannot represent it (it used to wrap around silently)
+		return nil, errors.New("message too long for request format")
+	}
 	length := uint8(len(p))
 	prefixed := append([]byte{length}, p...)
 	return prefixed, nil
@@ -26,6 +30,10 @@ func RemoveRequestFormat(p []byte) ([]byte, error) {
 
 // Add length prefix to response, using uint16 instad of uint8 for larger payload
 func AddResponseFormat(p []byte) ([]byte, error) {
+	if len(p) > 0xffff {
+		// the two byte length prefix cannot represent it (it used to wrap around silently)
+		return nil, errors.New("message too long for response format")
+	}
 	length := uint16(len(p))
 	b := make([]byte, 2)
 	binary.BigEndian.PutUint16(b, length)
